@@ -462,6 +462,16 @@ func execute(s *engine.Script, o *engine.Outcome) {
 		}
 		tasks[tk] = append(tasks[tk], &taskCall{c: c})
 	}
+	// Oracle 2 baseline for package-level state: taken before ANY read-only
+	// call of this run, including the solo executions below — a cache keyed by
+	// content would otherwise be warmed by the solo run and stay unchanged (and
+	// race-free) during the concurrent phase.
+	globals := libraryGlobals()
+	gnames := engine.SortedKeys(globals)
+	gbefore := make([]string, len(gnames))
+	for i, n := range gnames {
+		gbefore[i] = snap.Of(globals[n])
+	}
 	// Oracle 1 baseline: every call executed alone on a fresh, private
 	// instance of the same value; the dry run also counts the yields.
 	total := int64(0)
@@ -493,15 +503,7 @@ func execute(s *engine.Script, o *engine.Outcome) {
 		}
 	}
 	sort.SliceStable(pts, func(i, j int) bool { return pts[i].at < pts[j].at })
-	// Oracle 2 baseline: deep snapshot of the shared value and of every
-	// package-level variable of the library.
-	globals := libraryGlobals()
-	gnames := engine.SortedKeys(globals)
 	before := snap.Of(sharedPtr.Interface())
-	gbefore := make([]string, len(gnames))
-	for i, n := range gnames {
-		gbefore[i] = snap.Of(globals[n])
-	}
 
 	schedReset(nt, pts)
 	var wg sync.WaitGroup
